@@ -414,6 +414,18 @@ func fixedCases() {
 			k++
 		}
 	}
+	// neutral parameters at the array level (identity rotation, zero translation, unit scale; a rotation by 2^-12):
+	// a shortcut that hands back the caller's array or skips the loop shows up as a changed input / a differing element
+	for _, c := range []struct{ p, s, q []float64 }{
+		{[]float64{0, 0, 0}, []float64{1, 1, 1}, []float64{0, 0, 0, 1}},
+		{[]float64{0, 0, 0}, []float64{1, 1, 1}, []float64{0, 1.0 / 4096, 0, 1}},
+		{[]float64{1.0 / (1 << 30), 0, 0}, []float64{1, 1 + 1.0/(1<<30), 1}, []float64{0, 0, 0, 1}},
+	} {
+		for _, entry := range []string{"trs.TransformArray", "trs.TransformInPlace", "quat.RotateArray", "mesh.ApplyTRS", "mesh.Rotate", "mesh.Translate", "mesh.Scale"} {
+			doBig(bigDesc{Entry: entry, N: 97 + k%5, PSeed: uint64(3000 + k), Workers: workers[k%len(workers)], P: c.p, S: c.s, Q: c.q})
+			k++
+		}
+	}
 	run.Count("fixed:large-arrays")
 	doTheta(thetaDesc{Theta: math.Pi / 2, Axis: []float64{0, 0, 2}, V: []float64{1, 0, 0}})
 	doTheta(thetaDesc{Theta: math.Pi, Axis: []float64{0, 1, 0}, V: []float64{1, 2, 3}})
